@@ -34,6 +34,7 @@ struct Task
     bool arrived = false;
     int64_t yields = 0;
     int64_t nodes = 0;
+    int64_t root_visits_iter = 0;  // entries of the root node since the last completed iteration
     int last_point = 0;
     int64_t point_count[32] = {0};
     void* search_obj = nullptr;
@@ -91,6 +92,7 @@ struct GoRec
     int iterations_done = 0;
     bool stop_sent = false, stop_consumed = false, stop_processed = false;
     bool node_limit_flagged = false;
+    bool idle_after_stop_flagged = false;
     bool exit_pending = false;  // the GUI sent quit / closed the pipe before this go was answered: no bestmove is owed
     int64_t stop_line_no = 0;  // ordinal (among all `stop` lines the GUI sent) of the stop meant for this go
     std::string stop_window;
